@@ -537,6 +537,39 @@ pub async fn forwarder_connect(
     }
 }
 
+/// [`forwarder_connect`], and when the connection is made: everything the returned source then
+/// delivers up to its end (or 2 s of silence) - what a tunnel over this connection hands to its client
+pub async fn forwarder_connect_read(
+    core: &Core,
+    destination: VTcpDestination,
+    auth: Option<VAuthSource>,
+) -> (VConnectOutcome, Vec<u8>) {
+    let connector = core.verif_make_forwarder().tcp_connector();
+    let meta = forwarder::TcpConnectionMeta {
+        client_address: IpAddr::from([203, 0, 113, 1]),
+        destination: match destination {
+            VTcpDestination::Address(a) => net_utils::TcpDestination::Address(a),
+            VTcpDestination::HostName(h, p) => net_utils::TcpDestination::HostName((h, p)),
+        },
+        auth: auth.map(|a| a.to_source()),
+        tls_domain: "tls.example".to_string(),
+        user_agent: Some("verif-agent".to_string()),
+    };
+    match connector.connect(log_utils::IdChain::empty(), meta).await {
+        Ok((mut source, _sink)) => {
+            let mut got = vec![];
+            while let Ok(Ok(crate::pipe::Data::Chunk(b))) =
+                tokio::time::timeout(std::time::Duration::from_secs(2), source.read()).await
+            {
+                got.extend_from_slice(&b);
+                let _ = source.consume(b.len());
+            }
+            (VConnectOutcome::Connected, got)
+        }
+        Err(e) => (outcome_of_error(&e), vec![]),
+    }
+}
+
 /// Establish a UDP association against `server_reply` (selection + reply bytes), send the
 /// given datagrams through it and feed `incoming` raw datagrams to it from `relay`
 /// (the socket the reply designates). Returns what `recv_from` reported for each incoming one.
